@@ -9,9 +9,13 @@ LEAN_TARGETS = ['Props.C12']
 OBLIGATIONS = [
     'C12.fast_up_is_up', 'C12.fast_down_inverts_up', 'C12.translation_rotor_unit', 'C12.translation_rotor_moves', 'C12.euc_dist_sq',
     'C12.apply_rotor_compose', 'C12.one_plus_X2X1_intertwines', 'C12.fast_dual_kernel', 'C12.model_relations',
+    'C12.dilation_rotor', 'C12.rotation_rotor_unit', 'C12.rotation_rotor_turns', 'C12.rotation_rotor_fixes',
+    'C12.point_pair_square', 'C12.point_pair_end_points', 'C12.point_pair_dot_einf', 'C12.sphere_centre', 'C12.sphere_radius',
 ]
-PARTIAL = ['dilation/rotation rotors, point_pair_to_end_points, sphere centre/radius, quaternion/matrix conversions, projections, cost and parameterisation kernels, '
-           'explicit and line-specialised rotor extractors: no Lean theorem (sqrt / trigonometric / branch analysis); decided by evaluation on the implementation']
+PARTIAL = ['dilation/rotation rotors, point_pair_to_end_points, sphere centre/radius are proved with the transcendental value as a parameter constrained by its algebraic law '
+           '(a^2-b^2 = 1, c^2+s^2 = 1, beta = -gamma); that libm satisfies these laws to rounding is evaluated',
+           'quaternion/matrix conversions, projections, cost and parameterisation kernels, explicit and line-specialised rotor extractors: no Lean theorem '
+           '(branch analysis / numerical kernels); decided by evaluation on the implementation']
 RULE = ("Euclidean points/vectors with dyadic coordinates in a box of size 8, scales/radii in [1/4, 8], angles in (0, pi); random integer multivectors for the algebraic "
         "identities (fast kernels vs generic definitions, exact). Non-trivial = non-zero input; distinct = distinct (function, input)")
 ASSUMPTIONS = ["libm sqrt/cos/sin/cosh/sinh accurate to a few ulp; tolerances 1e-9 relative to the magnitude of the quantities compared (1e-6 for iterated root/log based rotors)"]
